@@ -4,8 +4,13 @@ package main
 
 import (
 	"fmt"
+	"github.com/ddddddO/gtree"
+	mos "github.com/ddddddO/gtree/verifmc/mos"
+	"os"
+	"path/filepath"
 	"sort"
 	"strings"
+	"verifharness/fsx"
 
 	mc "github.com/ddddddO/gtree/verifmc"
 
@@ -115,6 +120,71 @@ func (e *c07Exec) Check(o *mc.Outcome) []Viol {
 	return vs
 }
 
+// c07TwoCalls: a massive Mkdir that fails (its last root is invalid) while one of its workers may still be busy with an
+// earlier, valid root, followed at once by a second massive Mkdir into ANOTHER target directory. Whatever the first call
+// still creates after it returned, it creates in its own target: the second target holds exactly the second tree, and
+// nothing appears anywhere else.
+type c07TwoCalls struct {
+	jail             *fsx.Jail
+	t1, t2           string
+	before           fsx.Snap
+	err1, err2       error
+	doc1, doc2       string
+	returned         bool
+	allowed1, exact2 map[string]bool
+}
+
+func (e *c07TwoCalls) Body() {
+	mos.Reset(0)
+	e.err1 = gtree.MkdirFromMarkdown(newReader(e.doc1), gtree.WithMassive(nil), gtree.WithTargetDir(e.t1))
+	e.err2 = gtree.MkdirFromMarkdown(newReader(e.doc2), gtree.WithMassive(nil), gtree.WithTargetDir(e.t2))
+	e.returned = true
+}
+
+func (e *c07TwoCalls) Outcome() string {
+	return fmt.Sprintf("err1=%v err2=%v", e.err1 != nil, e.err2 != nil)
+}
+
+func (e *c07TwoCalls) Check(o *mc.Outcome) []Viol {
+	defer e.jail.Remove()
+	if !e.returned || o.End() == "panic" {
+		return nil
+	}
+	var vs []Viol
+	after := fsx.Snapshot(e.jail.Root)
+	for p := range after {
+		if _, was := e.before[p]; was {
+			continue
+		}
+		switch {
+		case strings.HasPrefix(p, "p/q/target/"):
+			if !e.allowed1[strings.TrimPrefix(p, "p/q/target/")] {
+				vs = append(vs, Viol{"C07|two-calls|first-target-holds-something-else", fmt.Sprintf("%s appeared in the first call's target (err1=%v err2=%v)", p, e.err1, e.err2)})
+			}
+		case strings.HasPrefix(p, "p/q/second/"):
+			if !e.exact2[strings.TrimPrefix(p, "p/q/second/")] {
+				vs = append(vs, Viol{"C07|two-calls|second-target-holds-entries-of-the-first-call", fmt.Sprintf("%s appeared in the second call's target (err1=%v err2=%v)", p, e.err1, e.err2)})
+			}
+		default:
+			vs = append(vs, Viol{"C07|escaped-target|massive|two-calls", fmt.Sprintf("%s appeared outside both targets", p)})
+		}
+	}
+	if e.err1 == nil {
+		vs = append(vs, Viol{"C07|invalid-name-accepted|massive|two-calls", "the first call has a root named .. and returned nil"})
+	}
+	if e.err2 != nil {
+		vs = append(vs, Viol{"C07|two-calls|second-call-failed", fmt.Sprintf("the second call (a valid tree, an empty target of its own) returned %v", e.err2)})
+	} else {
+		for p := range e.exact2 {
+			if _, ok := after["p/q/second/"+p]; !ok {
+				vs = append(vs, Viol{"C07|two-calls|second-tree-incomplete", fmt.Sprintf("%s is missing from the second call's target", p)})
+				break
+			}
+		}
+	}
+	return vs
+}
+
 func init() {
 	scenarioGens["C07"] = func(tier string) []*Scenario {
 		k := 1
@@ -148,6 +218,23 @@ func init() {
 					}
 				}
 			}
+		}
+		// two calls in a row (see c07TwoCalls)
+		for wi, w := range []map[string]int{w1, w2} {
+			name := fmt.Sprintf("c07/two-calls/w%d", wi+1)
+			out = append(out, &Scenario{Name: name, Prop: "C07", Workers: w, Bound: k, Policies: []int{0, 1, 2},
+				New: func() Exec {
+					j := fsx.NewJail("c07two")
+					t2 := filepath.Join(j.Root, "p", "q", "second")
+					os.MkdirAll(t2, 0o755)
+					e := &c07TwoCalls{jail: j, t1: j.Target, t2: t2,
+						doc1:     "- big\n  - c1\n  - c2\n  - c3\n    - d\n  - c4\n- ..\n",
+						doc2:     "- other\n  - x\n",
+						allowed1: map[string]bool{"big": true, "big/c1": true, "big/c2": true, "big/c3": true, "big/c3/d": true, "big/c4": true},
+						exact2:   map[string]bool{"other": true, "other/x": true}}
+					e.before = fsx.Snapshot(j.Root)
+					return e
+				}})
 		}
 		// several roots with a hostile name at once (each would end up outside the target if it were created): whichever
 		// worker notices first, none of them is created
